@@ -170,7 +170,8 @@ GHexDigit(d) == IF d < 10 THEN 48 + d ELSE 55 + d
 \* M: mutations of single productions, used only to show that the round-trip
 \* invariant can fail (MC_Gser mutant configurations, TestGser)
 GStringText(v, M) ==                                        \* 3.2 StringValue
-  <<34>> \o Concat([i \in 1..Len(v) |-> IF v[i] = 34 /\ "MutNoQuoteDoubling" \notin M THEN <<34, 34>> ELSE <<v[i]>>]) \o <<34>>
+  IF ~\E i \in 1..Len(v) : v[i] = 34 THEN <<34>> \o v \o <<34>>
+  ELSE <<34>> \o Concat([i \in 1..Len(v) |-> IF v[i] = 34 /\ "MutNoQuoteDoubling" \notin M THEN <<34, 34>> ELSE <<v[i]>>]) \o <<34>>
 
 GBitStringText(v, M) ==                                     \* 3.3 bstring
   LET n == IF "MutBitsPadToOctet" \in M THEN 8 * Len(v.b) ELSE v.n
@@ -319,27 +320,19 @@ GClassHolds(name, env, T, v) ==
 GOk(v, nx) == [ok |-> TRUE, v |-> v, nx |-> nx]
 GFail(prod, at, msg) == [ok |-> FALSE, prod |-> prod, at |-> at, msg |-> msg]
 
-\* E[p] = first position q >= p with ~InC(t[q]) (Len(t)+1 if none), for p in 1..Len(t)+1
-GRunEnds(t, InC(_)) ==
-  LET n == Len(t)
-  IN FoldLeft(LAMBDA acc, p : <<IF InC(t[p]) THEN acc[1] ELSE p>> \o acc, <<n + 1>>, [j \in 1..n |-> n + 1 - j])
+\* the lexical context of one text: the text, which characters are white-space,
+\* the deviations in force, the recorded float() table
+GLex(t, wsLf, S, reals) == [t |-> t, n |-> Len(t), S |-> S, reals |-> reals, wsLf |-> wsLf]
 
-\* the lexical context of one text: the text, run-end tables of the character
-\* classes, the deviations in force, the recorded float() table
-GLex(t, wsLf, S, reals) ==
-  LET hasSq == \E i \in 1..Len(t) : t[i] = 39
-      hasDq == \E i \in 1..Len(t) : t[i] = 34
-  IN [t |-> t, n |-> Len(t), S |-> S, reals |-> reals,
-      ws |-> GRunEnds(t, LAMBDA c : c = 32 \/ (wsLf /\ c = 10)),
-      dg |-> GRunEnds(t, GIsDigit),
-      id |-> GRunEnds(t, GIsIdChar),
-      hx |-> IF hasSq THEN GRunEnds(t, GIsHexU) ELSE <<>>,
-      bn |-> IF hasSq THEN GRunEnds(t, GIsBin) ELSE <<>>,
-      nq |-> IF hasDq THEN GRunEnds(t, LAMBDA c : c # 34) ELSE <<>>,
-      qe |-> IF hasDq THEN GRunEnds(t, LAMBDA c : c = 34) ELSE <<>>]
+\* first position q >= p whose character is not in the class (cx.n + 1 if none);
+\* SelectInSeq is evaluated by a Java loop, so runs may be long
+GRunEnd(cx, p, InC(_)) ==
+  LET k == SelectInSeq(SubSeq(cx.t, p, cx.n), LAMBDA c : ~InC(c))
+  IN IF k = 0 THEN cx.n + 1 ELSE p + k - 1
 
 GCh(cx, p) == IF p >= 1 /\ p <= cx.n THEN cx.t[p] ELSE -1           \* -1: end of text
-GSp(cx, p) == cx.ws[p]                                               \* sp: skip zero or more
+GIsWs(cx, c) == c = 32 \/ (cx.wsLf /\ c = 10)
+GSp(cx, p) == IF ~GIsWs(cx, GCh(cx, p)) THEN p ELSE GRunEnd(cx, p, LAMBDA c : GIsWs(cx, c))   \* sp: skip zero or more
 GLit(cx, p, lit) == p + Len(lit) - 1 <= cx.n /\ SubSeq(cx.t, p, p + Len(lit) - 1) = lit
 
 GNoHint == [has |-> FALSE, v |-> "NULL"]
@@ -347,7 +340,7 @@ GHint(v) == [has |-> TRUE, v |-> v]
 
 \* identifier = lowercase *alphanumeric *(hyphen 1*alphanumeric)
 GReadIdentifier(cx, p) ==
-  LET q == cx.id[p]
+  LET q == GRunEnd(cx, p, GIsIdChar)
       tok == SubSeq(cx.t, p, q - 1)
   IN IF q = p THEN GFail("identifier", p, "an identifier is expected")
      ELSE IF ~GIsLower(tok[1]) THEN GFail("identifier", p, "an identifier starts with a lower-case letter")
@@ -358,7 +351,7 @@ GReadIdentifier(cx, p) ==
 
 \* "0" / positive-number as a digit string (positive-number = non-zero-digit *decimal-digit)
 GReadNumber(cx, p) ==
-  LET q == cx.dg[p]
+  LET q == GRunEnd(cx, p, GIsDigit)
   IN IF q = p THEN GFail("number", p, "a decimal digit is expected")
      ELSE IF cx.t[p] = 48 /\ q > p + 1 THEN GFail("number", p, "leading zero")
      ELSE GOk(SubSeq(cx.t, p, q - 1), q)
@@ -397,9 +390,9 @@ GReadEnumeratedValue(cx, T, p) ==                                            \* 
 \* 3.2 StringValue: the part after the opening quote, from p
 RECURSIVE GStringBody(_, _)
 GStringBody(cx, p) ==
-  LET a == cx.nq[p]                       \* the next quote
+  LET a == GRunEnd(cx, p, LAMBDA c : c # 34)     \* the next quote
   IN IF a > cx.n THEN GFail("StringValue", p, "unterminated string")
-     ELSE LET b == cx.qe[a]               \* end of the run of quotes
+     ELSE LET b == GRunEnd(cx, a, LAMBDA c : c = 34)   \* end of the run of quotes
               L == b - a
               plain == SubSeq(cx.t, p, a - 1) \o [i \in 1..(L \div 2) |-> 34]
           IN IF L % 2 = 1 THEN GOk(plain, b)                   \* pairs, then the closing quote
@@ -416,8 +409,8 @@ GReadStringValue(cx, p, h) ==
 \* 3.3 hstring / bstring: the digits between the quotes and the letter
 GReadQuoted(cx, p) ==
   IF GCh(cx, p) # 39 THEN GFail("hstring/bstring", p, "an opening apostrophe is expected")
-  ELSE LET qb == cx.bn[p + 1]
-           qh == cx.hx[p + 1]
+  ELSE LET qb == GRunEnd(cx, p + 1, GIsBin)
+           qh == GRunEnd(cx, p + 1, GIsHexU)
        IN IF GCh(cx, qb) = 39 /\ GCh(cx, qb + 1) = 66 THEN [ok |-> TRUE, kind |-> "B", ds |-> SubSeq(cx.t, p + 1, qb - 1), nx |-> qb + 2]
           ELSE IF GCh(cx, qh) = 39 /\ GCh(cx, qh + 1) = 72 THEN [ok |-> TRUE, kind |-> "H", ds |-> SubSeq(cx.t, p + 1, qh - 1), nx |-> qh + 2]
           ELSE IF GCh(cx, qh) = 39 THEN GFail("hstring/bstring", qh + 1, "B or H is expected after the closing apostrophe")
@@ -487,10 +480,10 @@ GRealOfDecimal(cx, prod, from, to, neg, digits, X) ==
 
 \* 3.17 realnumber = mantissa exponent, p0: start of the lexeme (the sign), p: first digit
 GReadRealNumber(cx, p0, neg, p) ==
-  LET ipEnd == cx.dg[p]
+  LET ipEnd == GRunEnd(cx, p, GIsDigit)
       ip == SubSeq(cx.t, p, ipEnd - 1)
       hasDot == GCh(cx, ipEnd) = 46
-      fpEnd == IF hasDot THEN cx.dg[ipEnd + 1] ELSE ipEnd
+      fpEnd == IF hasDot THEN GRunEnd(cx, ipEnd + 1, GIsDigit) ELSE ipEnd
       fp == IF hasDot THEN SubSeq(cx.t, ipEnd + 1, fpEnd - 1) ELSE <<>>
       mantOk == IF ip[1] = 48 THEN Len(ip) = 1 /\ hasDot /\ \E i \in 1..Len(fp) : fp[i] # 48     \* "0." *("0") positive-number
                 ELSE TRUE                                                                      \* positive-number [ "." *decimal-digit ]
@@ -507,7 +500,7 @@ GReadRealNumber(cx, p0, neg, p) ==
      ELSE IF "DevGserRealPythonExponent" \in cx.S /\ GCh(cx, fpEnd) = 101 /\ GCh(cx, fpEnd + 1) \in {43, 45}
      THEN \* python repr: digits [. digits] e (+|-) 2*digit, followed by the constant exponent E0
           LET xneg == GCh(cx, fpEnd + 1) = 45
-              xEnd == cx.dg[fpEnd + 2]
+              xEnd == GRunEnd(cx, fpEnd + 2, GIsDigit)
               xd == SubSeq(cx.t, fpEnd + 2, xEnd - 1)
           IN IF Len(xd) < 2 \/ Len(xd) > 4 THEN GFail("realnumber/DevGserRealPythonExponent", fpEnd + 2, "two or more exponent digits are expected")
              ELSE IF ~(GCh(cx, xEnd) = 69 /\ GCh(cx, xEnd + 1) = 48) THEN GFail("realnumber/DevGserRealPythonExponent", xEnd, "E0 is expected")
@@ -628,7 +621,7 @@ GReadValue(cx, env, T, p, h) ==
 
 \* typereference: like an identifier but starting with an upper-case letter
 GReadTypeReference(cx, p) ==
-  LET q == cx.id[p]
+  LET q == GRunEnd(cx, p, GIsIdChar)
       tok == SubSeq(cx.t, p, q - 1)
   IN IF q = p \/ ~GIsUpper(tok[1]) THEN GFail("typereference", p, "a type reference is expected")
      ELSE IF tok[Len(tok)] = 45 \/ \E i \in 1..(Len(tok) - 1) : tok[i] = 45 /\ tok[i + 1] = 45
